@@ -393,6 +393,27 @@ static bool readDataset(Dataset &ds) {
   return true;
 }
 
+// The request as the HTTP handlers see it: a (key, value) list handed to the parameter FACTORY, so that the factory's
+// normalisations (non-positive limits, defaults) and the scans' tests on the normalised values are exercised together.
+// "no limit" (MAX_INT) is sent as 0, the disabled first-waiting cap (-1) as 0 or -1 alternately.
+static std::vector<std::pair<std::string, std::string>> requestKv(const Q &q, int alt, bool access) {
+  auto lim = [](long long v) { return std::to_string(v == 2147483647LL ? 0LL : v); };
+  std::vector<std::pair<std::string, std::string>> kv;
+  if (access) kv.push_back({"place", q.fwd ? "1.0,1.0" : "1.0,2.0"});
+  else { kv.push_back({"origin", "1.0,1.0"}); kv.push_back({"destination", "2.0,2.0"}); }
+  kv.push_back({"scenario_id", boost::uuids::to_string(uuidOf(K_SCEN, q.scen))});
+  kv.push_back({"time_of_trip", std::to_string(q.time)});
+  kv.push_back({"time_type", q.fwd ? "0" : "1"});
+  kv.push_back({"min_waiting_time", std::to_string(q.minw)});
+  kv.push_back({"max_travel_time", lim(q.maxtt)});
+  kv.push_back({"max_access_travel_time", lim(q.maxacc)});
+  kv.push_back({"max_egress_travel_time", lim(q.maxegr)});
+  kv.push_back({"max_transfer_travel_time", lim(q.maxtr)});
+  kv.push_back({"max_first_waiting_time", q.maxfw == -1 ? ((q.time % 2) ? "0" : "-1") : std::to_string(q.maxfw)});
+  if (!access) kv.push_back({"alternatives", alt ? "true" : "false"});
+  return kv;
+}
+
 static std::string doRoute(TransitData &td, const Q &q, int alt, const std::vector<Row> &acc, const std::vector<Row> &egr) {
   TableGeoFilter geo;
   geo.acc = acc; geo.egr = egr;
@@ -403,7 +424,8 @@ static std::string doRoute(TransitData &td, const Q &q, int alt, const std::vect
   if (sit == td.getScenarios().end()) return "route noscenario";
   try {
     Calculator calc(td, geo);
-    RouteParameters params(std::make_unique<Point>(1.0, 1.0), std::make_unique<Point>(2.0, 2.0), sit->second, q.time, q.minw, q.maxtt, q.maxacc, q.maxegr, q.maxtr, q.maxfw, alt == 1, q.fwd == 1);
+    auto kv = requestKv(q, alt, false);
+    RouteParameters params = RouteParameters::createRouteODParameter(kv, td.getScenarios());
     if (alt) {
       AlternativesResult res = calc.alternativesRouting(params);
       out << "alt ok " << res.totalAlternativesCalculated << " " << res.alternatives.size();
@@ -436,7 +458,8 @@ static std::string doAccess(TransitData &td, const Q &q, const std::vector<Row> 
   if (sit == td.getScenarios().end()) return "access noscenario";
   try {
     Calculator calc(td, geo);
-    AccessibilityParameters params(std::make_unique<Point>(q.fwd ? 1.0 : 2.0, 1.0), sit->second, q.time, q.minw, q.maxtt, q.maxacc, q.maxegr, q.maxtr, q.maxfw, q.fwd == 1);
+    auto kv = requestKv(q, 0, true);
+    AccessibilityParameters params = AccessibilityParameters::createAccessibilityParameter(kv, td.getScenarios());
     std::unique_ptr<AllNodesResult> res = calc.calculateAllNodes(params);
     out << "access ok " << res->nodes.size() << " " << res->totalNodeCount;
     for (auto &n : res->nodes) out << " | " << idOfUuid(n.node.uuid) << " " << n.arrivalTime << " " << n.totalTravelTime << " " << n.numberOfTransfers;
